@@ -14,6 +14,10 @@ CORE = [M + "/ptrify", M + "/common", "strings", "unicode/utf8", "strconv", "go/
 
 CHECKS = {
     "SMOKE": {"runs": [{"entry": M + ".HarnessL1Smoke", "pkgs": CORE, "must_reach": ["smoke-end"]}]},
+    "C05": {"runs": [
+        {"entry": M + ".HarnessC05Quick", "pkgs": CORE, "must_reach": ["c05-end"], "instrument": [M], "validate": 0},
+        {"entry": M + ".HarnessC05Seq", "pkgs": CORE, "must_reach": ["c05-end"], "instrument": [M], "validate": 0},
+    ]},
     "C15": {
         "claim": {
             "text": "bounded model checking of the real parse package: for every 64-bit literal value, in every Go literal style and padding, the integral parsers accept it iff it is in the target type's range and then return exactly that value (solver-quantified over the value; strconv.ParseInt/ParseUint modelled by their documented contract with base and bit size checked)",
